@@ -6,6 +6,7 @@ import (
 	"fmt"
 	"go/ast"
 	"go/constant"
+	"go/token"
 	"go/types"
 	"os"
 	"path/filepath"
@@ -324,6 +325,22 @@ func driverTypeCases(c *Ctx) map[string]bool {
 			for _, cs := range sw.Cases {
 				m[cs] = true
 			}
+		}
+	}
+	if len(m) == 0 {
+		// if/else chain instead of a switch: comparisons of the DriverType field with string constants
+		if fn := c.LookupFunc("platform", "", "setDriver"); fn != nil {
+			allInstrs(fn, func(in ssa.Instruction) {
+				bo, ok := in.(*ssa.BinOp)
+				if !ok || (bo.Op != token.EQL && bo.Op != token.NEQ) {
+					return
+				}
+				for _, pair := range [][2]ssa.Value{{bo.X, bo.Y}, {bo.Y, bo.X}} {
+					if s, isC := constString(pair[1]); isC && isFieldLoadNamed(pair[0], "DriverType") {
+						m[s] = true
+					}
+				}
+			})
 		}
 	}
 	return m
